@@ -4,6 +4,7 @@ package main
 
 import (
 	"fmt"
+	"strings"
 	"go/constant"
 	"go/token"
 	"go/types"
@@ -237,6 +238,9 @@ func (fv *FnV) doInstr(st *State, ins ssa.Instruction) error {
 		r := fv.freshRef(st, "new!"+ins.Name())
 		p := &Ptr{kind: pPlain, ref: r, elemT: t, alloc: ins}
 		fv.zeroInit(st, p, t)
+		if strings.HasSuffix(t.String(), "bytes.Buffer") {
+			fv.heapSet(st, "B|buf", sto(fv.heapGet(st, "B|buf"), r, "str!empty"))
+		}
 		fv.vals[ins] = &SV{v: Val{r, sRef}, ptr: p, typ: ins.Type()}
 	case *ssa.FieldAddr:
 		base := fv.ptrOf(ins.X)
@@ -585,7 +589,9 @@ func (fv *FnV) doBinOp(st *State, ins *ssa.BinOp) error {
 		}
 	case xs == sAny:
 		// interface comparison panics when both hold the same uncomparable dynamic type
-		fv.safety(st, "cmp", fv.comparable(xt, yt), ins.Pos())
+		if xt != "a!nil" && yt != "a!nil" {
+			fv.safety(st, "cmp", fv.comparable(xt, yt), ins.Pos())
+		}
 		switch ins.Op {
 		case token.EQL:
 			out = eq(xt, yt)
@@ -734,7 +740,7 @@ func (fv *FnV) doSlice(st *State, ins *ssa.Slice) error {
 		if ins.High != nil {
 			// a legal reslice beyond len conjures elements from spare capacity
 			label := "reslice-within-len:" + fv.siteText(ins.Pos(), "slice")
-			fv.emit(st, "S", label, fv.safetyProps(), "(bvsle "+hi+" (s!len "+s+"))", "slice upper bound does not exceed the length", ins.Pos()).Contained = false
+			fv.emit(st, "S", label, fv.safetyPropsAt(label), "(bvsle "+hi+" (s!len "+s+"))", "slice upper bound does not exceed the length", ins.Pos()).Contained = false
 		}
 		out := app("mk!slice", "(s!ref "+s+")", "(bvadd (s!off "+s+") "+lo+")", "(bvsub "+hi+" "+lo+")", "(bvsub "+mx+" "+lo+")")
 		fv.vals[ins] = fv.fromTerm(fv.c.Define(ins.Name(), sSlice, out), ins.Type())
